@@ -94,6 +94,7 @@ def s_argsort(v, *a, **k):
 
 
 def p_argsort(v):
+    v = _seq(v)
     idx = list(range(len(v)))
     idx.sort(key=lambda i: v[i])          # stable; no oracle depends on the order of ties
     return NPList(idx)
@@ -105,7 +106,15 @@ def s_dot(a, b, *r, **k):
     return p_dot(a, b)
 
 
+def _seq(v):
+    """1-d ndarray operands are sequences, 0-d ones scalars"""
+    if isinstance(v, _np.ndarray):
+        return NPList(v.tolist()) if v.ndim == 1 else (v.item() if v.ndim == 0 else v)
+    return v
+
+
 def p_dot(a, b):
+    a, b = _seq(a), _seq(b)
     if type(a) in (list, tuple, NPList) and type(b) in (list, tuple, NPList):
         if len(a) != len(b):
             raise ValueError(f"shapes ({len(a)},) and ({len(b)},) not aligned")
@@ -127,6 +136,7 @@ def s_average(a, *r, **k):
 
 
 def p_average(a):
+    a = _seq(a)
     tot = 0.0
     for x in a:
         tot = tot + x
